@@ -431,6 +431,42 @@ def run(rep):
                                  for k, v in m0.items()}},
                         again=lambda x_, m0=m0, mode=mode: ck.lemma_once(
                             x_, m0, mode), detail='plain-map')
+    # interpretations together with a map one of whose keys is also bound
+    # by a quantifier of the formula
+    if rep.shard == 1 % rep.nshards and (not rep.only or
+                                         rep.only == 'interp'):
+        common.fresh_env()
+        x, y = B.Sym('i0', B.INT), B.Sym('i1', B.INT)
+        X = ('i0', B.INT)
+        fty = B.FUN(B.INT, (B.INT,))
+        gty = B.FUN(B.BOOL, (B.INT, B.INT))
+        fx = lambda a: B.App('c05f', fty, (a,))
+        gx = lambda a, c: B.App('c05g', gty, (a, c))
+        fp = ('fp0i', B.INT)
+        gp = [('gp0i', B.INT), ('gp1i', B.INT)]
+        interps = {('c05f', fty): ([fp], ('plus', None, (B.Sym(*fp),
+                                                         B.Int(1)))),
+                   ('c05g', gty): (gp, ('lt', None, (B.Sym(*gp[0]),
+                                                     B.Sym(*gp[1]))))}
+        forms = [
+            ('and', None, (('exists', (X,), (('eq', None, (fx(x), y)),)),
+                           ('lt', None, (B.Int(3), x)))),
+            ('or', None, (('forall', (X,), (gx(fx(x), y),)), gx(x, fx(y)))),
+            ('and', None, (gx(x, y), ('exists', (X, ('i1', B.INT)), (
+                gx(fx(x), fx(y)),)))),
+            ('forall', (X,), (('or', None, (gx(x, fx(x)),
+                                            ('exists', (X,), (
+                                                ('eq', None, (fx(x), y)),)),
+                                            )),)),
+        ]
+        maps = [{X: B.Int(7)}, {X: B.Int(7), ('i1', B.INT): B.Int(2)},
+                {('i1', B.INT): B.Int(5)}, {}]
+        for b0 in forms:
+            for m0 in maps:
+                for mode in modes:
+                    kind, info = ck.interp_once(b0, interps, m0, mode)
+                    rep.count('special_interp_cases')
+                    ck.report('interp-' + mode, kind, info, b0, {})
     for j in range(n):
         if rep.out_of_time():
             rep.notes.append('truncated at %d of %d' % (j, n))
